@@ -138,7 +138,7 @@ func vh_C03_L2_arbitrary_packet_any_state() {
 	vassert(vDeliver(a, vDataChunk(a, cum+1, 9, false, 2)) == nil, "inbound data")
 	held := a.streams[9]
 	a.setState(uint32(vPick(8)))
-	lens := []int{16, 20}
+	lens := []int{12, 16, 20} // 12: a common header and no chunk at all
 	if vtier() > 0 {
 		lens = []int{12, 16, 20, 24}
 	}
@@ -310,3 +310,53 @@ func vh_C03_L7_far_forward_tsn_is_bounded_work() {
 // acknowledged without having been stored.
 func vh_C03_L8_stale_stream_sequence_cannot_wedge_a_stream() { vh_C07_L3_receiver_skip_exact() }
 func vh_C03_L8_dropped_chunk_is_never_marked_received()      { vh_C01_L4_duplicate_suppression() }
+
+// C03.L9: handshake chunks that arrive in a state in which they mean nothing (a second,
+// different INIT ACK while the COOKIE ECHO is outstanding; INIT, INIT ACK, COOKIE ECHO,
+// COOKIE ACK on an established or closing association) change nothing (= C04.L2).
+func vh_C03_L9_misplaced_handshake_chunks_change_nothing() { vh_C04_L2_stale_chunks_ignored() }
+
+// C03.L10: a reset response nobody is waiting for. An association with no, or one,
+// outstanding stream reset request receives a RE-CONFIG carrying a response parameter with
+// an arbitrary response sequence number and an arbitrary result (alone, or as the second
+// parameter of the chunk): no runtime panic; a response that matches no outstanding request
+// changes nothing; the answered request, and only it, is retired by a final result; and a
+// second copy of the same answer (the request had been retransmitted) is harmless.
+func vh_C03_L10_reset_response_for_unknown_request() {
+	a, _ := vNewAssoc()
+	s, err := a.OpenStream(1, PayloadTypeWebRTCBinary)
+	vassert(err == nil, "open stream")
+	outstanding := vPick(2) == 1
+	var rsn uint32
+	if outstanding {
+		vassert(s.Close() == nil, "close")
+		a.cwnd, a.rwnd = 1<<20, 1<<20
+		_ = vWriterWake(a)
+		vassert(len(a.reconfigs) == 1, "one reset request outstanding")
+		for k := range a.reconfigs {
+			rsn = k
+		}
+	}
+	seq := nondetU32()
+	result := reconfigResult(nondetU32())
+	resp := &paramReconfigResponse{reconfigResponseSequenceNumber: seq, result: result}
+	c := &chunkReconfig{paramA: resp}
+	if vPick(2) == 1 {
+		c = &chunkReconfig{paramA: &paramReconfigResponse{reconfigResponseSequenceNumber: seq + 1, result: reconfigResultInProgress}, paramB: resp}
+	}
+	ssn := s.sequenceNumber
+	vassert(vDeliver(a, c) == nil, "RECONFIG is never fatal")
+	if !outstanding || seq != rsn {
+		want := 0
+		if outstanding {
+			want = 1
+		}
+		vassert(len(a.reconfigs) == want && s.sequenceNumber == ssn, "a response that answers no outstanding request changes nothing")
+	} else if result != reconfigResultInProgress {
+		vassert(len(a.reconfigs) == 0, "a final answer retires the request it answers")
+	}
+	vassert(vDeliver(a, c) == nil, "the same answer again (the request had been repeated) is never fatal either")
+	vassert(!a.willSendAbort, "no ABORT is provoked")
+	vassert(vLocksFree(a, s), "no lock is left held")
+	vcover("end")
+}
